@@ -50,7 +50,7 @@ func TestMain(m *testing.M) {
 
 // Op is one generated operation (data only; interpreted by expand).
 type Op struct {
-	Kind       string `json:"kind"` // blob | put | tagdel | mandel | close | copy | import
+	Kind       string `json:"kind"` // blob | put | tagdel | mandel | close | copy | import | blobdel
 	Obj        Obj    `json:"obj"`
 	Tag        string `json:"tag,omitempty"`         // put: "" = by digest; tagdel; copy/import: target tag
 	Child      bool   `json:"child,omitempty"`       // put by digest WithManifestChild (no index entry)
@@ -59,6 +59,16 @@ type Op struct {
 	Src        string `json:"src,omitempty"`         // copy: tag in the source layout
 	Referrers  bool   `json:"referrers,omitempty"`   // copy option
 	DigestTags bool   `json:"digest_tags,omitempty"` // copy option
+	// dimensions added by the generator-domain audit
+	RefForm   string `json:"ref_form,omitempty"`   // put: tag+digest | bare (default tag latest); mandel: tag+digest; copy/import: digest
+	Ctx       string `json:"ctx,omitempty"`        // cancelled: the call gets an already cancelled context
+	Desc      string `json:"desc,omitempty"`       // blob: none | digest-only | size-only | wrong-digest | wrong-size
+	Force     bool   `json:"force,omitempty"`      // copy: ImageWithForceRecursive
+	Fast      bool   `json:"fast,omitempty"`       // copy: ImageWithFastCheck
+	Platform  string `json:"platform,omitempty"`   // copy: ImageWithPlatforms
+	Self      bool   `json:"self,omitempty"`       // copy: the source is a tag (Src) of the layout itself (retag)
+	TarStyle  string `json:"tar_style,omitempty"`  // import: reversed | gzip | multi | docker
+	CheckRefs bool   `json:"check_refs,omitempty"` // mandel: WithManifestCheckReferrers
 }
 
 // KSel selects the crash positions.
@@ -70,11 +80,13 @@ type KSel struct {
 
 // Case is one script plus its crash positions.
 type Case struct {
-	Pre       []Op `json:"pre"`
-	Victim    []Op `json:"victim"`
-	Prep      bool `json:"prep"`       // push what the victim's manifests refer to at the end of the pre-history
-	DirExists bool `json:"dir_exists"` // the layout directory exists (empty) before the first operation
-	K         KSel `json:"k"`
+	Pre       []Op   `json:"pre"`
+	Victim    []Op   `json:"victim"`
+	Prep      bool   `json:"prep"`       // push what the victim's manifests refer to at the end of the pre-history
+	DirExists bool   `json:"dir_exists"` // the layout directory exists (empty) before the first operation
+	K         KSel   `json:"k"`
+	Seed      string `json:"seed,omitempty"`     // a layout written by another tool exists before the first operation (seedStyles)
+	RelPath   bool   `json:"rel_path,omitempty"` // the client names the layout by a relative path (ocidir://lay)
 }
 
 var tagPool = []string{"v1", "v2", "latest", "a.b-c_d"}
@@ -86,14 +98,14 @@ func kindOf(op Op) string {
 		if o.T == "artifact" {
 			return "put-referrer"
 		}
-		if op.Tag != "" {
+		if op.Tag != "" || op.RefForm == "bare" {
 			return "put-tagged"
 		}
 		if op.Child {
 			return "put-child"
 		}
 		return "put-untagged"
-	case "blob", "tagdel", "mandel", "close", "copy", "import":
+	case "blob", "tagdel", "mandel", "close", "copy", "import", "blobdel":
 		return op.Kind
 	}
 	return "close"
@@ -144,29 +156,36 @@ func genOp(t *rapid.T, pre bool, seenTags []string, seenObjs []Obj) Op {
 		}
 		return tagPool[pick(t, "tag", len(tagPool))]
 	}
-	kinds := []string{"put", "blob", "tagdel", "mandel", "close", "copy", "import"}
-	w := []int{38, 8, 10, 10, 8, 14, 12}
+	kinds := []string{"put", "blob", "tagdel", "mandel", "close", "copy", "import", "blobdel"}
+	w := []int{36, 9, 9, 10, 7, 14, 12, 3}
 	if pre {
-		w = []int{50, 6, 7, 7, 5, 14, 11}
+		w = []int{50, 6, 7, 7, 4, 14, 10, 2}
 	}
+	var op Op
 	switch weighted(t, "kind", kinds, w) {
 	case "blob":
 		o := Obj{"blob", pick(t, "blob", nBlobs)}
 		if pick(t, "cfgblob", 6) == 0 {
 			o = Obj{"config", pick(t, "cfg", nImages)}
 		}
-		return Op{Kind: "blob", Obj: o, NoDesc: pick(t, "nodesc", 4) == 0}
+		op = Op{Kind: "blob", Obj: o, Desc: weighted(t, "blobdesc",
+			[]string{"", "none", "digest-only", "size-only", "wrong-digest", "wrong-size"}, []int{40, 20, 12, 12, 8, 8})}
+	case "blobdel":
+		op = Op{Kind: "blobdel", Obj: Obj{"blob", pick(t, "blob", nBlobs)}}
 	case "put":
-		op := Op{Kind: "put", Obj: genObj(t), Deep: pre}
-		switch weighted(t, "putmode", []string{"tag", "digest", "child"}, []int{6, 2, 2}) {
+		op = Op{Kind: "put", Obj: genObj(t), Deep: pre}
+		switch weighted(t, "putmode", []string{"tag", "digest", "child", "tag+digest", "bare"}, []int{50, 16, 16, 11, 7}) {
 		case "tag":
 			op.Tag = pickTag()
 		case "child":
 			op.Child = true
+		case "tag+digest":
+			op.Tag, op.RefForm = pickTag(), "tag+digest"
+		case "bare":
+			op.RefForm = "bare"
 		}
-		return op
 	case "tagdel":
-		return Op{Kind: "tagdel", Tag: pickTag()}
+		op = Op{Kind: "tagdel", Tag: pickTag()}
 	case "mandel":
 		var o Obj
 		if len(seenObjs) > 0 && pick(t, "useobj", 10) < 8 {
@@ -174,29 +193,78 @@ func genOp(t *rapid.T, pre bool, seenTags []string, seenObjs []Obj) Op {
 		} else {
 			o = genObj(t)
 		}
-		return Op{Kind: "mandel", Obj: o}
+		op = Op{Kind: "mandel", Obj: o, CheckRefs: pick(t, "checkrefs", 5) == 0}
+		if pick(t, "mandelref", 7) == 0 {
+			op.Tag, op.RefForm = pickTag(), "tag+digest"
+		}
 	case "close":
-		return Op{Kind: "close"}
+		op = Op{Kind: "close"}
 	case "copy":
 		src := sourceTags()
-		return Op{Kind: "copy", Src: src[pick(t, "src", len(src))], Tag: pickTag(),
-			Referrers: pick(t, "referrers", 3) == 0, DigestTags: pick(t, "digesttags", 5) == 0}
+		op = Op{Kind: "copy", Src: src[pick(t, "src", len(src))], Tag: pickTag(),
+			Referrers: pick(t, "referrers", 3) == 0, DigestTags: pick(t, "digesttags", 5) == 0,
+			Force: pick(t, "force", 5) == 0, Fast: pick(t, "fast", 10) == 0}
+		if pick(t, "platform", 10) == 0 {
+			op.Platform = "linux/amd64"
+		}
+		switch weighted(t, "copyform", []string{"", "self", "digest"}, []int{80, 12, 8}) {
+		case "self":
+			op.Self, op.Src = true, pickTag()
+		case "digest":
+			op.RefForm = "digest"
+		}
 	default:
 		o := Obj{"image", pick(t, "img", nImages)}
 		if pick(t, "impidx", 3) == 0 {
 			o = Obj{"index", pick(t, "idx", nIndexes)}
 		}
-		return Op{Kind: "import", Obj: o, Tag: pickTag()}
+		op = Op{Kind: "import", Obj: o, Tag: pickTag(),
+			TarStyle: weighted(t, "tarstyle", []string{"", "reversed", "gzip", "multi", "docker"}, []int{40, 15, 15, 15, 15})}
+		if op.TarStyle != "docker" && pick(t, "importref", 12) == 0 {
+			op.RefForm = "digest"
+		}
 	}
+	// A cancelled context is only drawn for the single-call operations: what ImageCopy / ImageImport do
+	// with one depends on which goroutine notices it first, so an uninterrupted run is no reference for them.
+	if !pre && op.Kind != "copy" && op.Kind != "import" && pick(t, "ctx", 15) == 0 {
+		op.Ctx = "cancelled"
+	}
+	return op
+}
+
+// srcObj maps a tag of the copy source layout to its object.
+func srcObj(src string) (Obj, bool) {
+	if len(src) < 2 {
+		return Obj{}, false
+	}
+	var n int
+	if _, err := fmt.Sscanf(src[1:], "%d", &n); err != nil {
+		return Obj{}, false
+	}
+	switch src[0] {
+	case 'i':
+		return norm(Obj{"image", n}), true
+	case 'x':
+		return norm(Obj{"index", n}), true
+	case 'a':
+		return norm(Obj{"artifact", n}), true
+	}
+	return Obj{}, false
 }
 
 func gen(t *rapid.T) Case {
 	c := Case{
 		Prep:      pick(t, "prep", 10) != 0,
 		DirExists: rapid.Bool().Draw(t, "direxists"),
+		RelPath:   pick(t, "relpath", 4) == 0,
 	}
 	var tags []string
 	var objs []Obj
+	if pick(t, "seeded", 4) == 0 {
+		c.Seed = seedStyles[pick(t, "seedstyle", len(seedStyles))]
+		tags = append(tags, "v1", "v2")
+		objs = append(objs, Obj{"image", 0}, Obj{"index", 0}, Obj{"image", 1})
+	}
 	note := func(op Op) {
 		if op.Tag != "" && op.Kind != "tagdel" {
 			tags = append(tags, op.Tag)
@@ -204,16 +272,9 @@ func gen(t *rapid.T) Case {
 		if op.Kind == "put" || op.Kind == "import" {
 			objs = append(objs, op.Obj)
 		}
-		if op.Kind == "copy" {
-			var n int
-			fmt.Sscanf(op.Src[1:], "%d", &n)
-			switch op.Src[0] {
-			case 'i':
-				objs = append(objs, Obj{"image", n})
-			case 'x':
-				objs = append(objs, Obj{"index", n})
-			default:
-				objs = append(objs, Obj{"artifact", n})
+		if op.Kind == "copy" && !op.Self {
+			if o, ok := srcObj(op.Src); ok {
+				objs = append(objs, o)
 			}
 		}
 	}
@@ -229,6 +290,10 @@ func gen(t *rapid.T) Case {
 		c.Victim = append(c.Victim, op)
 		note(op)
 	}
+	// every regctl / regsync / regbot command ends with rc.Close (GC) in the same process
+	if last := c.Victim[len(c.Victim)-1]; last.Kind != "close" && len(c.Victim) < 3 && pick(t, "thenclose", 4) == 0 {
+		c.Victim = append(c.Victim, Op{Kind: "close"})
+	}
 	if evid.Tier() == "thorough" {
 		c.K = KSel{Mode: "all"}
 	} else {
@@ -238,6 +303,106 @@ func gen(t *rapid.T) Case {
 		}
 	}
 	return c
+}
+
+// dims lists the audited dimensions a case exercises (evidence labels).
+func dims(c Case) []string {
+	set := map[string]bool{}
+	if c.Seed != "" {
+		set["dim:seed="+c.Seed] = true
+	} else {
+		set["dim:seed=none"] = true
+	}
+	if c.RelPath {
+		set["dim:relative-path"] = true
+	}
+	for i, op := range c.Victim {
+		if i > 0 && op.Kind == "close" && c.Victim[i-1].Kind != "close" {
+			set["dim:victim-op-then-close"] = true
+		}
+	}
+	all := append(append([]Op{}, c.Pre...), c.Victim...)
+	for i, op := range all {
+		vic := i >= len(c.Pre)
+		o := norm(op.Obj)
+		add := func(l string) {
+			if vic {
+				set["dim:"+l] = true
+			}
+		}
+		if op.Ctx != "" {
+			add("ctx=" + op.Ctx)
+		}
+		switch op.Kind {
+		case "blob":
+			d := op.Desc
+			if op.NoDesc {
+				d = "none"
+			}
+			if d == "" {
+				d = "full"
+			}
+			add("blob-desc=" + d)
+			if o.T == "blob" {
+				add(fmt.Sprintf("blob-size=%d", blobSizes[mod(o.N, nBlobs)]))
+				if algOf(o) == "sha512" {
+					add("blob-sha512")
+				}
+			}
+		case "put":
+			switch {
+			case op.RefForm != "":
+				add("put-ref=" + op.RefForm)
+			case op.Tag != "":
+				add("put-ref=tag")
+			case op.Child:
+				add("put-ref=digest-child")
+			default:
+				add("put-ref=digest")
+			}
+			add("put-mediatype=" + strings.TrimPrefix(objMediaType(o), "application/vnd."))
+			if o.T == "artifact" {
+				add("referrer-subject=" + norm(artifactSubject[o.N]).T)
+			}
+			if algOf(o) == "sha512" {
+				add("manifest-sha512")
+			}
+			if (o.T == "image" && o.N == 6) || (o.T == "index" && o.N == 5) {
+				add("duplicate-entries-in-manifest")
+			}
+		case "mandel":
+			if op.RefForm != "" {
+				add("mandel-ref=" + op.RefForm)
+			}
+			if op.CheckRefs {
+				add("mandel-check-referrers")
+			}
+			add("mandel-of=" + o.T)
+		case "copy":
+			for _, f := range []struct {
+				on bool
+				l  string
+			}{{op.Referrers, "referrers"}, {op.DigestTags, "digest-tags"}, {op.Force, "force-recursive"}, {op.Fast, "fast-check"},
+				{op.Platform != "", "platforms"}, {op.Self, "self-retag"}, {op.RefForm == "digest", "to-digest"}} {
+				if f.on {
+					add("copy-" + f.l)
+				}
+			}
+			if so, ok := srcObj(op.Src); ok && !op.Self {
+				add("copy-of=" + so.T)
+			}
+		case "import":
+			st := op.TarStyle
+			if st == "" {
+				st = "oci-ordered"
+			}
+			add("import-tar=" + st)
+			if op.RefForm == "digest" {
+				add("import-to-digest")
+			}
+		}
+	}
+	return sortedKeys(set)
 }
 
 // ------------------------------------------------------------------ environment
@@ -298,31 +463,44 @@ func getEnv() (*env, error) {
 	return e, nil
 }
 
-func (e *env) tarFor(o Obj, tag string) (string, error) {
+func (e *env) tarFor(o Obj, tag string, style string) (string, error) {
 	o = norm(o)
-	key := o.String() + "@" + tag
+	key := o.String() + "@" + tag + "/" + style
 	if p, ok := e.tars[key]; ok {
 		return p, nil
 	}
 	p := filepath.Join(e.work, fmt.Sprintf("tar-%d.tar", len(e.tars)))
-	if err := writeLayoutTar(p, o, tag); err != nil {
+	if err := writeLayoutTar(p, o, tag, style); err != nil {
 		return "", err
 	}
 	e.tars[key] = p
 	return p, nil
 }
 
-// expand turns generated ops into public-API calls.
-func expand(c Case, e *env) (pre, victim []DrvOp, kinds []string, err error) {
+// expand turns generated ops into public-API calls. dir is the layout as the
+// client names it (absolute or relative).
+func expand(c Case, e *env, dir string) (pre, victim []DrvOp, kinds []string, err error) {
 	one := func(op Op, deep bool) ([]DrvOp, error) {
 		var out []DrvOp
+		var last DrvOp
 		switch op.Kind {
 		case "blob":
 			o := norm(op.Obj)
 			if isManifestObj(o) {
 				o = Obj{"blob", mod(o.N, nBlobs)}
 			}
-			out = append(out, blobOp(o, op.NoDesc))
+			last = blobOp(o, op.NoDesc)
+			switch op.Desc {
+			case "none", "digest-only", "size-only", "wrong-digest", "wrong-size":
+				last.DescMode = op.Desc
+				last.what += " desc=" + op.Desc
+			}
+		case "blobdel":
+			o := norm(op.Obj)
+			if isManifestObj(o) {
+				o = Obj{"blob", mod(o.N, nBlobs)}
+			}
+			last = DrvOp{Op: "blobdel", Digest: objDigest(o), what: "blobdel " + o.String()}
 		case "put":
 			o := norm(op.Obj)
 			if !isManifestObj(o) {
@@ -331,34 +509,63 @@ func expand(c Case, e *env) (pre, victim []DrvOp, kinds []string, err error) {
 			if deep {
 				out = append(out, prereqOps(o, map[string]bool{})...)
 			}
-			out = append(out, manifestOp(o, op.Tag, op.Child))
+			last = manifestOp(o, op.Tag, op.Child)
+			switch {
+			case op.RefForm == "tag+digest" && op.Tag != "":
+				last.RefForm = "tag+digest"
+				last.what += " ref=tag+digest"
+			case op.RefForm == "bare" && op.Tag == "":
+				last.RefForm, last.Child = "bare", false
+				last.what += " ref=bare(latest)"
+			}
 		case "tagdel":
 			tag := op.Tag
 			if tag == "" {
 				tag = "latest"
 			}
-			out = append(out, DrvOp{Op: "tagdel", Tag: tag, what: "tagdel " + tag})
+			last = DrvOp{Op: "tagdel", Tag: tag, what: "tagdel " + tag}
 		case "mandel":
 			o := norm(op.Obj)
 			if !isManifestObj(o) {
 				o = Obj{"image", mod(o.N, nImages)}
 			}
-			out = append(out, DrvOp{Op: "mandel", Digest: objDigest(o), what: "mandel " + o.String()})
+			last = DrvOp{Op: "mandel", Digest: objDigest(o), CheckRefs: op.CheckRefs, what: "mandel " + o.String()}
+			if op.RefForm == "tag+digest" && op.Tag != "" {
+				last.Tag, last.RefForm = op.Tag, "tag+digest"
+				last.what += " ref=" + op.Tag + "+digest"
+			}
 		case "copy":
-			src := op.Src
-			ok := false
-			for _, s := range sourceTags() {
-				ok = ok || s == src
-			}
-			if !ok {
-				src = "i0"
-			}
 			tag := op.Tag
 			if tag == "" {
 				tag = "latest"
 			}
-			out = append(out, DrvOp{Op: "copy", Src: "ocidir://" + e.src + ":" + src, Tag: tag, Referrers: op.Referrers,
-				DigestTags: op.DigestTags, what: fmt.Sprintf("copy %s->%s referrers=%v digesttags=%v", src, tag, op.Referrers, op.DigestTags)})
+			src := op.Src
+			var from string
+			if op.Self {
+				if src == "" {
+					src = "latest"
+				}
+				from = "ocidir://" + dir + ":" + src
+			} else {
+				if _, ok := srcObj(src); !ok {
+					src = "i0"
+				}
+				ok := false
+				for _, s := range sourceTags() {
+					ok = ok || s == src
+				}
+				if !ok {
+					src = "i0"
+				}
+				from = "ocidir://" + e.src + ":" + src
+			}
+			last = DrvOp{Op: "copy", Src: from, Tag: tag, Referrers: op.Referrers, DigestTags: op.DigestTags,
+				Force: op.Force, Fast: op.Fast, Platform: op.Platform,
+				what: fmt.Sprintf("copy %s->%s referrers=%v digesttags=%v force=%v fast=%v platform=%q self=%v", src, tag, op.Referrers, op.DigestTags, op.Force, op.Fast, op.Platform, op.Self)}
+			if so, ok := srcObj(src); ok && !op.Self && op.RefForm == "digest" {
+				last.RefForm, last.Digest = "digest", objDigest(so)
+				last.what += " to-digest"
+			}
 		case "import":
 			o := norm(op.Obj)
 			if o.T != "image" && o.T != "index" {
@@ -368,15 +575,35 @@ func expand(c Case, e *env) (pre, victim []DrvOp, kinds []string, err error) {
 			if tag == "" {
 				tag = "latest"
 			}
-			p, err := e.tarFor(o, tag)
+			style := ""
+			switch op.TarStyle {
+			case "reversed", "gzip", "multi":
+				style = op.TarStyle
+			case "docker":
+				if o.T == "image" {
+					style = "docker"
+				}
+			}
+			p, err := e.tarFor(o, tag, style)
 			if err != nil {
 				return nil, err
 			}
-			out = append(out, DrvOp{Op: "import", Tar: p, Tag: tag, what: fmt.Sprintf("import %s as %s", o, tag)})
+			last = DrvOp{Op: "import", Tar: p, Tag: tag, what: fmt.Sprintf("import %s as %s tar=%q", o, tag, style)}
+			if style == "multi" {
+				last.ImportName = tag
+			}
+			if style != "docker" && op.RefForm == "digest" {
+				last.RefForm, last.Digest = "digest", objDigest(o)
+				last.what += " to-digest"
+			}
 		default:
-			out = append(out, DrvOp{Op: "close", what: "close"})
+			last = DrvOp{Op: "close", what: "close"}
 		}
-		return out, nil
+		if op.Ctx == "cancelled" && op.Kind != "copy" && op.Kind != "import" {
+			last.Ctx = "cancelled"
+			last.what += " ctx=cancelled"
+		}
+		return append(out, last), nil
 	}
 	for _, op := range c.Pre {
 		ops, err := one(op, op.Deep)
@@ -537,6 +764,7 @@ func (e *env) runPlain(sc script) (*drvResult, error) {
 	defer cancel()
 	cmd := exec.CommandContext(ctx, e.drv, p)
 	cmd.Env = drvEnv()
+	cmd.Dir = e.work
 	var so, se bytes.Buffer
 	cmd.Stdout, cmd.Stderr = &so, &se
 	err = cmd.Run()
@@ -563,6 +791,7 @@ func (e *env) runStep(sc script, snap func()) (*drvResult, error) {
 	defer cancel()
 	cmd := exec.CommandContext(ctx, e.drv, p)
 	cmd.Env = drvEnv()
+	cmd.Dir = e.work
 	var se bytes.Buffer
 	cmd.Stderr = &se
 	stdin, err := cmd.StdinPipe()
@@ -612,8 +841,9 @@ func (e *env) runSupervised(sc script, k int) (*drvResult, *supResult, error) {
 	_ = os.Remove(rep)
 	ctx, cancel := context.WithTimeout(context.Background(), procTimeout)
 	defer cancel()
-	cmd := exec.CommandContext(ctx, e.crashrun, "-dir", sc.Dir, "-k", strconv.Itoa(k), "-report", rep, "--", e.drv, p)
+	cmd := exec.CommandContext(ctx, e.crashrun, "-dir", filepath.Join(e.work, filepath.Base(sc.Dir)), "-k", strconv.Itoa(k), "-report", rep, "--", e.drv, p)
 	cmd.Env = drvEnv()
+	cmd.Dir = e.work
 	var so, se bytes.Buffer
 	cmd.Stdout, cmd.Stderr = &so, &se
 	err = cmd.Run()
@@ -994,24 +1224,44 @@ func judgeFresh(C *State, rc *readCheck) []*evid.Violation {
 		add("fresh-client-taglist-fails", "the directory is a valid layout for an independent reader, but a fresh client cannot list tags: %s", rc.ListErr)
 		return vs
 	}
-	for _, t := range sortedKeys(C.Tags) {
-		dg := C.Tags[t]
-		if !C.Files[dg] {
+	// A ref.name may be a full image name ("registry/repo:tag", written by other tools): a
+	// client lists and resolves it by the part after the last colon. When two different
+	// ref.names share that part, which entry a client must prefer is not this property's
+	// business (C06): then only "listed and retrievable" is required.
+	tagOf := func(name string) string {
+		if i := strings.LastIndexByte(name, ':'); i >= 0 {
+			return name[i+1:]
+		}
+		return name
+	}
+	byTag := map[string][]string{}
+	for _, n := range sortedKeys(C.Tags) {
+		byTag[tagOf(n)] = append(byTag[tagOf(n)], n)
+	}
+	for _, t := range sortedKeys(byTag) {
+		names := byTag[t]
+		anyOK := false
+		for _, n := range names {
+			anyOK = anyOK || C.Files[C.Tags[n]]
+		}
+		if !anyOK {
 			continue // judged by clause (4)
 		}
 		got, ok := rc.Tags[t]
 		switch {
-		case ok && got != dg:
-			add("fresh-client-digest-differs", "tag %q: independent reader sees %s, fresh client got %s", t, short(dg), short(got))
+		case ok && len(names) == 1 && got != C.Tags[names[0]]:
+			add("fresh-client-digest-differs", "tag %q: independent reader sees %s, fresh client got %s", t, short(C.Tags[names[0]]), short(got))
 		case ok:
 		case rc.GetErr[t] != "":
-			add("fresh-client-manifestget-fails", "tag %q -> %s: fresh client cannot get the manifest: %s", t, short(dg), rc.GetErr[t])
+			if len(names) == 1 {
+				add("fresh-client-manifestget-fails", "tag %q -> %s: fresh client cannot get the manifest: %s", t, short(C.Tags[names[0]]), rc.GetErr[t])
+			}
 		default:
-			add("fresh-client-tag-not-listed", "tag %q -> %s is in index.json but a fresh client does not list it", t, short(dg))
+			add("fresh-client-tag-not-listed", "tag %q (ref.name %q) is in index.json but a fresh client does not list it", t, names)
 		}
 	}
 	for _, t := range sortedKeys(rc.Tags) {
-		if _, ok := C.Tags[t]; !ok {
+		if _, ok := byTag[t]; !ok {
 			add("fresh-client-lists-unknown-tag", "fresh client lists tag %q which the independent reader does not find", t)
 		}
 	}
@@ -1182,22 +1432,47 @@ func checkInner(c Case, ev *evid.Collector, shard, nshards int) ([]finding, erro
 	if len(c.Victim) > 3 {
 		c.Victim = c.Victim[:3]
 	}
-	pre, victim, kinds, err := expand(c, e)
+	lay := filepath.Join(e.work, "lay")
+	// the name the client uses for the layout (driver processes run in e.work)
+	name := func(abs string) string {
+		if c.RelPath {
+			return filepath.Base(abs)
+		}
+		return abs
+	}
+	pre, victim, kinds, err := expand(c, e, name(lay))
 	if err != nil {
 		return nil, inconclusive("expand: %v", err)
 	}
-	lay := filepath.Join(e.work, "lay")
+	seedDir := ""
+	if c.Seed != "" {
+		style := "plain"
+		for _, st := range seedStyles {
+			if st == c.Seed {
+				style = st
+			}
+		}
+		seedDir = filepath.Join(e.work, "seed-"+style)
+		if _, err := os.Stat(seedDir); err != nil {
+			if err := writeSeedLayout(seedDir, style); err != nil {
+				return nil, inconclusive("seed layout: %v", err)
+			}
+		}
+	}
 	fresh := func() error {
 		if err := os.RemoveAll(lay); err != nil {
 			return err
 		}
 		_ = os.RemoveAll(lay + ".raw")
+		if seedDir != "" {
+			return copyTree(seedDir, lay)
+		}
 		if c.DirExists {
 			return os.MkdirAll(lay, 0o777)
 		}
 		return nil
 	}
-	sc := script{Dir: lay, Pre: pre, Victim: victim}
+	sc := script{Dir: name(lay), Pre: pre, Victim: victim}
 
 	// ---- uninterrupted reference run, snapshots at operation boundaries
 	if err := fresh(); err != nil {
@@ -1228,11 +1503,24 @@ func checkInner(c Case, ev *evid.Collector, shard, nshards int) ([]finding, erro
 		return nil, err
 	}
 	N := cnt.Count
+	if os.Getenv("VERIF_C07_DEBUG") != "" && shard == 0 {
+		var sb strings.Builder
+		for i, v := range victim {
+			fmt.Fprintf(&sb, " [%s => ok=%v %s]", v.what, ref.Outcomes[i].OK, tail(ref.Outcomes[i].Msg, 160))
+		}
+		fmt.Fprintf(os.Stderr, "C07DEBUG seed=%q rel=%v pre=%d(%d pre-errors) N=%d victim:%s\n", c.Seed, c.RelPath, len(pre), len(rres.PreErrs), N, sb.String())
+		for _, pe := range rres.PreErrs {
+			fmt.Fprintf(os.Stderr, "C07DEBUG   %s\n", tail(pe, 200))
+		}
+	}
 	if shard == 0 {
 		ev.Sample(c)
 		ev.Add("scripts", 1)
 		ev.Add("crash_points_available", N)
 		ev.Class("script-pre:" + pcl)
+		for _, dl := range dims(c) {
+			ev.Class(dl)
+		}
 		for i, k := range kinds {
 			lab := "script-victim:" + k
 			if !ref.Outcomes[i].OK {
@@ -1284,6 +1572,16 @@ func checkInner(c Case, ev *evid.Collector, shard, nshards int) ([]finding, erro
 		if d >= len(victim) {
 			return out, inconclusive("kill at k=%d but all %d victim ops had returned", k, len(victim))
 		}
+		// the operations that had returned must have ended as in the reference run, else the
+		// reference states do not describe this execution (timing-dependent operation)
+		same := true
+		for i := 0; i < d; i++ {
+			same = same && kres.Outcomes[i].OK == ref.Outcomes[i].OK
+		}
+		if !same {
+			ev.Case(false, "", "outcome-differs-from-reference-run")
+			continue
+		}
 		at := sup.Calls[len(sup.Calls)-1]
 		win := windowOf(sup.Calls, k)
 		C := readState(lay)
@@ -1311,7 +1609,7 @@ func checkInner(c Case, ev *evid.Collector, shard, nshards int) ([]finding, erro
 			if err := copyTree(lay, raw); err != nil {
 				return out, inconclusive("%v", err)
 			}
-			r2, err := e.runPlain(script{Dir: raw, Victim: victim, From: d, ReadCheck: true})
+			r2, err := e.runPlain(script{Dir: name(raw), Victim: victim, From: d, ReadCheck: true})
 			if err != nil {
 				return out, err
 			}
@@ -1338,7 +1636,7 @@ func checkInner(c Case, ev *evid.Collector, shard, nshards int) ([]finding, erro
 		}
 		C.Preload()
 		// (5) + (7): one fresh client process lists/gets, then repeats the interrupted suffix
-		fres, err := e.runPlain(script{Dir: lay, Victim: victim, From: d, ReadCheck: true})
+		fres, err := e.runPlain(script{Dir: name(lay), Victim: victim, From: d, ReadCheck: true})
 		if err != nil {
 			return out, err
 		}
@@ -1350,7 +1648,7 @@ func checkInner(c Case, ev *evid.Collector, shard, nshards int) ([]finding, erro
 			}
 		}
 		for _, v := range judgeRerun(ref, d, C, R, fres, victim, explicit) {
-			if v.Sig == "rerun-leaves-incomplete-image" {
+			if v.Sig == "rerun-leaves-incomplete-image" || v.Sig == "rerun-untagged-entry-lost" {
 				// which kind of operation was interrupted is part of the specific behaviour
 				v.Sig += "-after-interrupted-" + kinds[d]
 			}
@@ -1582,6 +1880,69 @@ func kindMatrix() []Case {
 				break
 			}
 		}
+	}
+	// ---- dimensions added by the generator-domain audit (each from the populated pre-history
+	// unless it names its own pre-state), every crash position
+	all := KSel{Mode: "all"}
+	pp := populatedPre
+	audit := []Case{
+		// reference forms
+		{Pre: pp(), Victim: []Op{{Kind: "put", Obj: Obj{"image", 1}, Tag: "v1", RefForm: "tag+digest"}}, Prep: true},
+		{Pre: pp(), Victim: []Op{{Kind: "put", Obj: Obj{"image", 1}, RefForm: "bare"}}, Prep: true, RelPath: true},
+		{Pre: pp(), Victim: []Op{{Kind: "mandel", Obj: Obj{"image", 4}, Tag: "a.b-c_d", RefForm: "tag+digest", CheckRefs: true}}},
+		{Pre: pp(), Victim: []Op{{Kind: "mandel", Obj: Obj{"image", 0}}}}, // a subject that has a referrer, and a child of index0
+		{Pre: pp(), Victim: []Op{{Kind: "copy", Src: "i5", Tag: "x", RefForm: "digest"}}},
+		{Pre: pp(), Victim: []Op{{Kind: "import", Obj: Obj{"image", 1}, Tag: "x", RefForm: "digest"}}},
+		// digest algorithms, media types, duplicates
+		{Pre: pp(), Victim: []Op{{Kind: "put", Obj: Obj{"image", 7}, Tag: "s512"}, {Kind: "close"}}, Prep: true},
+		{Pre: pp(), Victim: []Op{{Kind: "put", Obj: Obj{"artifact", 6}}}, Prep: true}, // referrer of a sha512 subject
+		{Pre: pp(), Victim: []Op{{Kind: "copy", Src: "x6", Tag: "s512", Referrers: true}}},
+		{Pre: pp(), Victim: []Op{{Kind: "put", Obj: Obj{"artifact", 4}}}, Prep: true},             // OCI artifact manifest type
+		{Pre: pp(), Victim: []Op{{Kind: "put", Obj: Obj{"artifact", 5}, Tag: "att"}}, Prep: true}, // index with a subject
+		{Pre: pp(), Victim: []Op{{Kind: "put", Obj: Obj{"index", 4}, Tag: "dl"}}, Prep: true},     // Docker manifest list
+		{Pre: pp(), Victim: []Op{{Kind: "copy", Src: "x5", Tag: "dup"}}},                          // the same child twice
+		{Pre: pp(), Victim: []Op{{Kind: "copy", Src: "i6", Tag: "dup"}}},                          // the same layer twice
+		// blob put variants and sizes at the copy buffer boundary
+		{Pre: pp(), Victim: []Op{{Kind: "blob", Obj: Obj{"blob", 9}, Desc: "size-only"}}},
+		{Victim: []Op{{Kind: "blob", Obj: Obj{"blob", 10}, Desc: "digest-only"}}},
+		{Pre: pp(), Victim: []Op{{Kind: "blob", Obj: Obj{"blob", 11}, Desc: "none"}}},
+		{Pre: pp(), Victim: []Op{{Kind: "blob", Obj: Obj{"blob", 8}, Desc: "wrong-digest"}, {Kind: "blob", Obj: Obj{"blob", 8}}}},
+		{Victim: []Op{{Kind: "blob", Obj: Obj{"blob", 4}, Desc: "wrong-size"}, {Kind: "blob", Obj: Obj{"blob", 4}}}},
+		{Pre: pp(), Victim: []Op{{Kind: "blob", Obj: Obj{"blob", 1}}}}, // the blob is already there
+		{Pre: pp(), Victim: []Op{{Kind: "blobdel", Obj: Obj{"blob", 1}}}},
+		// copy options
+		{Pre: append(pp(), Op{Kind: "copy", Src: "a0", Tag: "sig"}), Victim: []Op{{Kind: "copy", Src: "a0", Tag: "sig", Referrers: true, Force: true}}},
+		{Pre: pp(), Victim: []Op{{Kind: "copy", Src: "x0", Tag: "v1", Fast: true, DigestTags: true}}},
+		{Pre: pp(), Victim: []Op{{Kind: "copy", Src: "x2", Tag: "plat", Platform: "linux/amd64"}}},
+		{Pre: pp(), Victim: []Op{{Kind: "copy", Self: true, Src: "v2", Tag: "retag"}, {Kind: "close"}}, RelPath: true},
+		// import variants
+		{Pre: pp(), Victim: []Op{{Kind: "import", Obj: Obj{"index", 0}, Tag: "t", TarStyle: "reversed"}}},
+		{Victim: []Op{{Kind: "import", Obj: Obj{"image", 3}, Tag: "t", TarStyle: "gzip"}}},
+		{Pre: pp(), Victim: []Op{{Kind: "import", Obj: Obj{"image", 1}, Tag: "t", TarStyle: "multi"}}},
+		{Pre: pp(), Victim: []Op{{Kind: "import", Obj: Obj{"image", 6}, Tag: "v1", TarStyle: "docker"}, {Kind: "close"}}},
+		{Victim: []Op{{Kind: "import", Obj: Obj{"image", 1}, Tag: "t", TarStyle: "docker"}}, RelPath: true},
+		// what every CLI command does: one operation, then Close (GC) in the same process
+		{Pre: pp(), Victim: []Op{{Kind: "put", Obj: Obj{"image", 1}, Tag: "old"}, {Kind: "close"}}, Prep: true},
+		{Pre: pp(), Victim: []Op{{Kind: "mandel", Obj: Obj{"artifact", 0}}, {Kind: "close"}}},
+		// a cancelled context
+		{Pre: pp(), Victim: []Op{{Kind: "blob", Obj: Obj{"blob", 3}, Ctx: "cancelled"}, {Kind: "put", Obj: Obj{"image", 1}, Tag: "v1", Ctx: "cancelled"}, {Kind: "close", Ctx: "cancelled"}}, Prep: true},
+	}
+	// layouts written by other tools: operations that hit their entries
+	for _, st := range seedStyles {
+		audit = append(audit,
+			Case{Seed: st, Victim: []Op{{Kind: "put", Obj: Obj{"image", 1}, Tag: "v1"}, {Kind: "close"}}, Prep: true},
+			Case{Seed: st, Victim: []Op{{Kind: "tagdel", Tag: "v1"}, {Kind: "close"}}},
+			Case{Seed: st, Victim: []Op{{Kind: "mandel", Obj: Obj{"image", 0}}}},
+		)
+	}
+	audit = append(audit,
+		Case{Seed: "fullname", Victim: []Op{{Kind: "copy", Src: "x1", Tag: "v2", Referrers: true}}},
+		Case{Seed: "dup", Victim: []Op{{Kind: "import", Obj: Obj{"image", 3}, Tag: "v1"}}},
+		Case{Seed: "leftovers", Victim: []Op{{Kind: "put", Obj: Obj{"artifact", 0}}, {Kind: "close"}}, Prep: true},
+	)
+	for _, c := range audit {
+		c.K = all
+		out = append(out, c)
 	}
 	return out
 }
